@@ -32,6 +32,8 @@ BOUNDS = {
     "quick": "all 2^(H*W)-1 masks (>=1 unmasked pixel) of every shape with H*W <= 9 (kernels) / <= 8 (classes); 1D masks of length <= 6; "
              "native/slim values, both storage modes: symbolic reals",
     "thorough": "all masks of every shape with H*W <= 12 (kernels and classes); 1D masks of length <= 8",
+    "merged": "additionally the slim/native/index kernels with the mask bits left symbolic (merge interpreter, ONE path = all 2^(H*W) masks "
+              "and all real values): shape 3x4 (quick) plus 4x4, 5x5 (thorough)",
 }
 OUTSIDE = ["shapes with more than 12 pixels", "float64 rounding (none arises: the code only copies and multiplies by 0/1)"]
 STUBS = []
@@ -267,8 +269,96 @@ def cases(tier):
     for N in range(1, cap_1 + 1):
         out.append(("case_1d", {"N": N}))
     out.sort(key=lambda c: -(c[1].get("H", 1) * c[1].get("W", c[1].get("N", 1))))
+    for (H, W) in ([(3, 4)] if tier == "quick" else [(3, 4), (4, 4), (5, 5)]):
+        out.append(("case_merged", {"H": H, "W": W}, {"timeout_ms": 60000 if tier == "quick" else 600000}))
     return out
 
 
 def replay(cand):
     return hx.replay_body(BODIES[cand["case_fn"]], cand)
+
+
+# ---------------------------------------------------------------------------- merged kernels: all masks of a shape in ONE path
+
+def POST_INSTALL():
+    from symx import merge
+    merge.install_dispatchers()
+
+
+def body_merged(inp, H, W):
+    from autoarray.structures.arrays import array_2d_util
+    from autoarray.mask import mask_2d_util
+    raw = np.asarray(inp["mask"], dtype=object).reshape(H, W)
+    symbolic = any(isinstance(b, V.SymBool) for b in raw.reshape(-1))
+    mask = raw if symbolic else np.array(raw, dtype=bool)
+    m = [[mask[y, x] if symbolic else bool(mask[y, x]) for x in range(W)] for y in range(H)]
+    v = np.asarray(inp["v"], dtype=object).reshape(H, W)
+    s = np.asarray(inp["s"], dtype=object).reshape(-1)
+    A, E = {}, {}
+    slim = hx.attempt(array_2d_util.array_2d_slim_from, array_2d_native=v, mask_2d=mask)
+    nfs = hx.attempt(mask_2d_util.native_index_for_slim_index_2d_from, mask_2d=mask)
+    un_idx = hx.attempt(mask_2d_util.mask_slim_indexes_from, mask_2d=mask, return_masked_indexes=False)
+    ma_idx = hx.attempt(mask_2d_util.mask_slim_indexes_from, mask_2d=mask, return_masked_indexes=True)
+    native = hx.attempt(array_2d_util.array_2d_native_from, array_2d_slim=s, mask_2d=mask)
+    for nm, val in (("slim", slim), ("native_for_slim", nfs), ("unmasked_slim", un_idx), ("masked_slim", ma_idx), ("native", native)):
+        if isinstance(val, hx.Raised):
+            A[nm + "_no_exception"] = val
+            E[nm + "_no_exception"] = "ok"
+            return A, E
+    nat = np.asarray(hx.unwrap(native), dtype=object)
+    nfs_a = np.asarray(hx.unwrap(nfs), dtype=object)
+    slim_a = np.asarray(hx.unwrap(slim), dtype=object)
+    un_a = np.asarray(hx.unwrap(un_idx), dtype=object)
+    ma_a = np.asarray(hx.unwrap(ma_idx), dtype=object)
+    cap = H * W
+    # reference: entry k of every slim-ordered list belongs to THE unmasked pixel whose row-major rank is k
+    ranks, mranks, rank, mrank = {}, {}, 0, 0
+    for y in range(H):
+        for x in range(W):
+            ranks[(y, x)], mranks[(y, x)] = rank, mrank
+            rank = rank + hx.b2i(hx.bneg(m[y][x]))
+            mrank = mrank + hx.b2i(m[y][x])
+
+    def pick(k, value_of, masked_list=False):
+        r = 0
+        for y in range(H):
+            for x in range(W):
+                un = hx.bneg(m[y][x])
+                hit = hx.band(m[y][x], mranks[(y, x)] == k) if masked_list else hx.band(un, ranks[(y, x)] == k)
+                r = hx.ite(hit, value_of(y, x), r)
+        return r
+
+    def get(a, k):
+        return a[k] if k < a.shape[0] else 0
+
+    for k in range(cap):
+        A["slim_%d" % k] = get(slim_a, k)
+        E["slim_%d" % k] = pick(k, lambda y, x: v[y, x])
+        A["native_for_slim_%d" % k] = [get(nfs_a[:, 0], k), get(nfs_a[:, 1], k)]
+        E["native_for_slim_%d" % k] = [pick(k, lambda y, x: y), pick(k, lambda y, x: x)]
+        A["unmasked_slim_%d" % k] = get(un_a, k)
+        E["unmasked_slim_%d" % k] = pick(k, lambda y, x: y * W + x)
+        A["masked_slim_%d" % k] = get(ma_a, k)
+        E["masked_slim_%d" % k] = pick(k, lambda y, x: y * W + x, masked_list=True)
+    for y in range(H):
+        for x in range(W):
+            A["native_entry_%d_%d" % (y, x)] = nat[y, x]
+            E["native_entry_%d_%d" % (y, x)] = hx.ite(hx.bneg(m[y][x]), hx.sel(s, ranks[(y, x)]), 0)
+    for nm, arr_, ref in (("slim", slim, rank), ("native_for_slim", nfs, rank), ("unmasked_slim", un_idx, rank), ("masked_slim", ma_idx, mrank)):
+        A["length_" + nm] = hx.length(arr_)
+        E["length_" + nm] = ref
+    return A, E
+
+
+def case_merged(ctx, H, W):
+    from symx import merge
+    m = V.bool_array("m", (H, W))
+    ctx.assume(z3.Or(*[z3.Not(b.t) for b in m.reshape(-1)]))
+    ctx.set_case(shape=[H, W], mode="merged: all masks of the shape in one path")
+    inputs = {"mask": m, "v": V.real_array("v", (H, W)), "s": V.real_array("s", (H * W,))}
+    with merge.merging() as ev:
+        hx.run_body(ctx, body_merged, inputs, {"H": H, "W": W}, validate_every=1)
+        ctx.check("no exception event reachable (IndexError etc.)", [z3.Not(g) for (g, n, msg) in ev])
+
+
+BODIES["case_merged"] = body_merged
